@@ -568,10 +568,16 @@ def mc_once(prog: Program) -> RuleResult:
                 stores_ = [nd for nd in cfg.nodes if nd.stmt is not None and any(is_super_call(cc) and cc.func.attr == "__setitem__" and cc.args and isinstance(cc.args[0], ast.Name) and cc.args[0].id == idx
                                                                                   for part in cfg._own_parts(nd) for cc in calls_in(part))]
                 rebinds = []
+                # locals computed from the current length (start, stop, step = idx.indices(len(self)))
+                from_len: Set[str] = set()
+                for _ in range(3):
+                    for nd in cfg.nodes:
+                        if nd.kind == "stmt" and isinstance(nd.stmt, ast.Assign) and ("len(self)" in src(nd.stmt.value) or any(isinstance(x, ast.Name) and x.id in from_len for x in ast.walk(nd.stmt.value))):
+                            from_len |= {x.id for t in nd.stmt.targets for x in ast.walk(t) if isinstance(x, ast.Name) and x.id != idx}
                 for nd in cfg.nodes:
                     if nd.kind == "stmt" and isinstance(nd.stmt, ast.Assign) and any(isinstance(t, ast.Name) and t.id == idx for t in nd.stmt.targets):
                         txt = src(nd.stmt.value)
-                        uses_len = "len(self)" in txt
+                        uses_len = "len(self)" in txt or any(isinstance(x, ast.Name) and x.id in from_len for x in ast.walk(nd.stmt.value))
                         for cc in calls_in(nd.stmt.value):
                             for tg in resolve_call(prog, ctx, cc):
                                 if isinstance(tg, FuncInfo) and any("len(self)" in src(x) for x in ast.walk(tg.node) if isinstance(x, ast.Call)):
@@ -583,6 +589,27 @@ def mc_once(prog: Program) -> RuleResult:
                         "the position is resolved against the list as it is when the write starts",
                         f"`{idx}` reaches list.__setitem__ as the caller passed it, after the on-add hook has run: with a transitive field the hook appends inferred elements, and x.f[-1] = y "
                         "then overwrites an inferred element instead of the old last one (the old element stays, an inferred one is lost)")
+                # slice.indices(n) answers for range(): counting down it gives stop = -1 for 'down to the first element', which a slice reads
+                # as 'down to the last'. A slice rebuilt from it must not take that stop as it is.
+                ind = [cc for cc in calls_in(f.node) if call_name(cc) == "indices"]
+                if ind:
+                    stop_names = set()
+                    for nd in cfg.nodes:
+                        if nd.kind == "stmt" and isinstance(nd.stmt, ast.Assign) and any(cc in list(ast.walk(nd.stmt.value)) for cc in ind):
+                            for t in nd.stmt.targets:
+                                if isinstance(t, (ast.Tuple, ast.List)) and len(t.elts) == 3 and isinstance(t.elts[1], ast.Name):
+                                    stop_names.add(t.elts[1].id)
+                    naive = None
+                    for cc in calls_in(f.node):
+                        if isinstance(cc.func, ast.Name) and cc.func.id == "slice":
+                            if any(isinstance(a, ast.Starred) and any(x in ind for x in ast.walk(a.value)) for a in cc.args):
+                                naive = naive or cc
+                            if len(cc.args) >= 2 and isinstance(cc.args[1], ast.Name) and cc.args[1].id in stop_names:
+                                naive = naive or cc
+                    r.check(naive is None, key + "#slice-counting-down", site(f, naive) if naive is not None else site(f), src(naive)[:80] if naive is not None else f"{len(ind)} call(s) of indices()",
+                            "a slice rebuilt from indices() does not take the counting-down stop -1 as it is",
+                            f"{src(naive)[:60] if naive is not None else ''} rebuilds the slice from slice.indices(): counting down, indices() gives stop = -1 for 'down to the first element', which "
+                            "the rebuilt slice reads as the last element - x.f[::-1] = [a, b] selects nothing and raises ValueError where a plain list reverses")
             sites = [a for a in _consumption_sites(prog, ctx, f, pname) if id(a) not in non_slice_exprs]
             ev: dict = {}
             for a in sites:
@@ -789,6 +816,13 @@ def mc_args(prog: Program) -> RuleResult:
     return r
 
 
+def _pd_field(prog):
+    # an append whose inferred inverse-of-inverse is not recognised as the relation being asserted writes the element a second time
+    from .c15 import pd_field
+
+    return pd_field(prog)
+
+
 def run(prog: Program, tier: str) -> List[RuleResult]:
     alias = pd_alias(prog)
-    return [mc_cover(prog), mc_hook(prog), alias, pd_aug(prog, not alias.failed), pd_seq(prog), pd_single(prog), mc_once(prog), pd_fresh(prog), mc_eq(prog), mc_args(prog), user_truth(prog, ["property_descriptor.property_descriptor", "property_descriptor.monitored_container", "property_descriptor.property_descriptor_relation"], 2)]
+    return [_pd_field(prog), mc_cover(prog), mc_hook(prog), alias, pd_aug(prog, not alias.failed), pd_seq(prog), pd_single(prog), mc_once(prog), pd_fresh(prog), mc_eq(prog), mc_args(prog), user_truth(prog, ["property_descriptor.property_descriptor", "property_descriptor.monitored_container", "property_descriptor.property_descriptor_relation"], 2)]
